@@ -38,6 +38,8 @@ func c19Corpus() []corr.Case {
 		// Mkdir (+Chmod): fresh, existing, missing parent, below a file
 		mk("mkdir "+hx("/d"), "mkdir "+hx("/d"), "mkdir "+hx("/x/y"), "create "+hx("/d/f"), "mkdir "+hx("/d/f/z"), "mkdir "+hx("/d/f"), "stat "+hx("/d"), "snapshot"),
 		// Write / WriteString / Seek / Truncate / Read / ReadAt around the end of the file
+		// io.Copy out of a handle, then the same handle goes on: it stands at the end
+		mk("create "+hx("/f"), "write 0 30313233343536373839", "seek 0 3 0", "copyout 0", "read 0 4", "write 0 4142", "readat 0 20 0", "seek 0 0 0", "copyout 0", "copyout 0", "seek 0 0 1", "close 0", "copyout 0"),
 		// io.Copy into a handle (a reader that hands its last bytes out together with io.EOF)
 		mk("create "+hx("/f"), "readfrom 0 0102030405", "readfrom 0 06", "seek 0 1 0", "readfrom 0 5a5b", "readat 0 20 0", "hstat 0", "close 0", "stat "+hx("/f"), "snapshot"),
 		mk("create "+hx("/f"), "write 0 0102030405", "writestring 0 0607", "seek 0 2 2", "write 0 5a", "readat 0 20 0", "trunc 0 3", "trunc 0 6",
@@ -420,7 +422,11 @@ func c19Random(r *corr.Rand, tier string) []corr.Case {
 				case m < 42:
 					add(fmt.Sprintf("writeat %d %s %d", h, corr.Hex(payload(rr, rr.Intn(7))), offNear(rr, L)))
 				case m < 54:
-					add(fmt.Sprintf("read %d %d", h, rr.Intn(9)))
+					if rr.Chance(12) {
+						add(fmt.Sprintf("copyout %d", h))
+					} else {
+						add(fmt.Sprintf("read %d %d", h, rr.Intn(9)))
+					}
 				case m < 68:
 					add(fmt.Sprintf("readat %d %d %d", h, rr.Intn(9), offNear(rr, L)))
 				case m < 82:
